@@ -268,6 +268,8 @@ def _type(I, args, kwargs):
 @model(builtins.set, "set(iterable) of hashable concrete elements")
 def _set(I, args, kwargs):
     if not args:
+        if getattr(I, "empty_set_hook", None) is not None:
+            return I.empty_set_hook()
         return SSet()
     if hasattr(args[0], "as_absset"):
         return args[0].as_absset()
